@@ -320,3 +320,365 @@ def euler(n, pairs=None):
         else:
             out.append(stack.pop())
     return out[::-1]
+
+
+# ---------------------------------------------------------------------------------------------------------
+# the in-file probe: which (tail kind, head kind) pairs interact at all inside ONE file
+# ---------------------------------------------------------------------------------------------------------
+_EMIT = re.compile(rb'^\{"e":"emit","pass":(\d+),"line":(\d+),[^\n]*?"bytes":"([0-9a-f]*)"', re.M)
+_DIAG = re.compile(rb'^\{"e":"diag","pass":(\d+),"line":(\d+),"num":(\d+)', re.M)
+
+
+def _strip_label(src, ln):
+    txt = src.lines[ln - 1]
+    if src.rows[ln][1] and txt.strip():
+        tok = txt.split()[0]
+        if txt[0] not in " \t" or tok.endswith(":"):
+            i = txt.index(tok)
+            return txt[:i] + " " * len(tok) + txt[i + len(tok):]
+    return txt
+
+
+def probe_text(src, klines):
+    """the source without the lines that lay down code, followed by the kind representatives in two orders in each of
+    which every kind follows every kind exactly once -> (text, first line number of the sequence, walk)"""
+    n = len(src.lines)
+    head = [src.lines[ln - 1] for ln in range(1, n + 1)
+            if ln not in src.drop and not (ln in src.rows and src.rows[ln][0].upper() == "END" and src.rows[ln][4] == 0)]
+    w1 = euler(len(klines))
+    perm = list(range(len(klines)))
+    rng("c18/genlatent/probe/" + src.name).shuffle(perm)
+    walk = w1 + [perm[i] for i in w1]
+    stm = [_strip_label(src, ln) for ln in klines]
+    return "\n".join(head + [stm[i] for i in walk]) + "\n", len(head) + 1, walk
+
+
+def _probe_job(args):
+    (bdir, hooks, flavour, t, text, first, walk) = args
+    import shutil
+    import subprocess
+    import tempfile
+    from vlib.build import Build
+    from vlib.common import scratch
+    b = Build(bdir, flavour, hooks)
+    d = tempfile.mkdtemp(prefix="gp-", dir=scratch())
+    try:
+        shutil.copytree(t[1], os.path.join(d, t[0]))
+        with open(os.path.join(d, t[0], "gprobe.asm"), "wb") as f:
+            f.write(text.encode("latin-1"))
+        e = dict(os.environ)
+        e.update(b.env({"LANG": "C", "LC_ALL": "C"}))
+        tr = os.path.join(d, "trace.ndjson")
+        e["ASL_VERIF_TRACE"] = tr
+        e["ASL_VERIF_EVENTS"] = "emit,diag"
+        try:
+            subprocess.run([b.tool("asl")] + list(t[3]) + ["-q", "-i", INCLUDE, "%s/gprobe.asm" % t[0]], cwd=d, env=e,
+                           timeout=120, stdin=subprocess.DEVNULL, stdout=subprocess.DEVNULL, stderr=subprocess.DEVNULL)
+        except subprocess.TimeoutExpired:
+            return None
+        if not os.path.exists(tr):
+            return None
+        code, diag = {}, {}
+        with open(tr, "rb") as f:
+            data = f.read()
+        for (ps, ln, by) in _EMIT.findall(data):
+            code.setdefault(int(ps), {}).setdefault(int(ln), []).append(by)
+        for (ps, ln, num) in _DIAG.findall(data):
+            diag.setdefault(int(ps), {}).setdefault(int(ln), []).append(int(num))
+        last = max(list(code) + list(diag) + [1])
+        code, diag = code.get(last, {}), diag.get(last, {})
+        occ = collections.defaultdict(list)          # head -> [(tail, bytes, diags)]
+        half = len(walk) // 2
+        for p in range(1, len(walk)):
+            if p == half:
+                continue
+            ln = first + p
+            occ[walk[p]].append((walk[p - 1], b"".join(code.get(ln, [])), tuple(sorted(diag.get(ln, [])))))
+        flagged = []
+        for h, lst in occ.items():
+            full = collections.Counter((c, dg) for (_, c, dg) in lst)
+            (mc, mdg), cnt = full.most_common(1)[0]
+            strong = cnt * 2 >= len(lst)
+            if not strong:                            # position-dependent code: diagnostics and length only
+                weak = collections.Counter((len(c), dg) for (_, c, dg) in lst)
+                (ml, mdg), _ = weak.most_common(1)[0]
+            seen = collections.defaultdict(list)
+            for (t_, c, dg) in lst:
+                if ((c, dg) != (mc, mdg)) if strong else ((len(c), dg) != (ml, mdg)):
+                    seen[t_].append("%s/%d" % (",".join(map(str, dg)), len(c)))
+            # the reaction follows the tail, not the position: it shows in both orders
+            flagged += [(t_, h, r[0]) for t_, r in seen.items() if len(r) >= 2]
+        return flagged
+    finally:
+        shutil.rmtree(d, ignore_errors=True)
+
+
+def probe_all(bld, plan):
+    """plan: [(src, klines)] -> [flagged pairs [(tail index, head index, reaction)] or None]"""
+    import concurrent.futures as cf
+    args = []
+    for (src, klines) in plan:
+        text, first, walk = probe_text(src, klines)
+        args.append((bld.dir, bld.hooks, bld.flavour, src.t, text, first, walk))
+    with cf.ProcessPoolExecutor(max_workers=NCPU) as ex:
+        return list(ex.map(_probe_job, args))
+
+
+# ---------------------------------------------------------------------------------------------------------
+# slots, histories, replay
+# ---------------------------------------------------------------------------------------------------------
+def tracked_cpus():
+    """CPU names of the generators that register a per-pass initialiser (read from the sources of the tree under test)"""
+    names = set()
+    try:
+        for fn in sorted(os.listdir(REPO)):
+            if fn.startswith("code") and fn.endswith(".c"):
+                with open(os.path.join(REPO, fn), "rb") as f:
+                    txt = f.read().decode("latin-1")
+                if "AddInitPassProc(" in txt:
+                    names.update(x.upper() for x in re.findall(r'"([A-Za-z0-9_./+-]{2,20})"\s*,\s*SwitchTo_', txt))
+                    names.update(x.upper() for x in re.findall(r'AddCPU\w*\(\s*"([^"]+)"', txt))
+    except OSError:
+        pass
+    return names
+
+
+_CPU = re.compile(r"^\s*cpu\s+([^\s;]+)", re.I | re.M)
+
+
+def is_tracked(src, cpus):
+    if src.name in TRACKED_EXTRA:
+        return True
+    used = {m.upper() for m in _CPU.findall("\n".join(src.lines))}
+    return bool(used & cpus)
+
+
+class Family:
+    """slots of one golden source"""
+
+    def __init__(self, src, tracked, tier, nkind):
+        self.src, self.tracked = src, tracked
+        r = rng("c18/genlatent/slots/" + src.name)
+        by_kind = collections.defaultdict(list)
+        for ln in src.clean:
+            by_kind[src.kind[ln]].append(ln)
+        kinds = sorted(by_kind)
+        if not tracked:
+            r.shuffle(kinds)            # tracked: source order (deterministic, all of them up to the bound)
+        cap = nkind if tracked else min(nkind, 60 if tier == "quick" else 160)
+        self.klines = [r.choice(by_kind[k]) for k in kinds[:cap]]          # kind slot i -> line
+        self.nkinds = len(kinds)
+        cuts = list(kinds)
+        r.shuffle(cuts)
+        self.cut = [r.choice(by_kind[k]) for k in cuts]                    # cut slot k -> line
+        hk = collections.defaultdict(list)
+        for ln in src.emit:
+            hk[src.kind[ln]].append(ln)
+        starts = sorted(hk)
+        r.shuffle(starts)
+        self.start = [r.choice(hk[k]) for k in starts]                     # start slot j -> line
+        self.opened = r.choice(src.opened) if src.opened else None
+        self.whole_limit = WIN if tier == "quick" else None
+
+    def win(self, w, tier):
+        """the window a TLC window record stands for, or None if the family has no such slot"""
+        s, lim = self.src, self.whole_limit
+        if w["w"] == "one":
+            if w["j"] > len(self.klines):
+                return None
+            ln = self.klines[w["j"] - 1]
+            return Win(s, ln, ln, "end")
+        if w["w"] == "pred":
+            if w["tr"] == "open":
+                if self.opened is None:
+                    return None
+                k = self.opened
+            elif w["k"] > len(self.cut):
+                return None
+            else:
+                k = self.cut[w["k"] - 1]
+            j = 0 if lim is None else max(1, k - lim)
+            return Win(s, j, k, "none" if w["tr"] == "open" else w["tr"])
+        if w["w"] == "succ":
+            if w["j"] > len(self.start):
+                return None
+            j = self.start[w["j"] - 1]
+            k = 0
+            if lim is not None and j + lim < len(s.lines):
+                inside = [ln for ln in s.clean if j <= ln <= j + lim]
+                k = inside[-1] if inside else j + lim
+            return Win(s, j, k, "none")
+        if w["w"] == "whole":
+            if lim is None or not s.clean:
+                return Win(s, 0, 0, "none")
+            inside = [ln for ln in s.clean if ln <= lim * 2]
+            return Win(s, 0, inside[-1] if inside else s.clean[0], "none")
+        return None
+
+
+def select_pairs(fam, flagged, tier, allowed):
+    """which (tail slot, head slot) single-instruction pairs are replayed: quick = the pairs the in-file probe shows to
+    interact (spread over tails and reactions) + a few others; thorough = all of them up to a bound"""
+    r = rng("c18/genlatent/pairs/" + fam.src.name)
+    n = len(fam.klines)
+    cap = (48 if fam.tracked else 12) if tier == "quick" else (4000 if fam.tracked else 400)
+    by_tail = collections.defaultdict(lambda: collections.defaultdict(list))
+    for (t, h, reaction) in flagged or ():
+        by_tail[t][reaction].append(h)
+    queues = []
+    for t in sorted(by_tail):
+        q = []
+        groups = [r.sample(v, len(v)) for _, v in sorted(by_tail[t].items())]
+        while any(groups):
+            for g in groups:
+                if g:
+                    q.append((t, g.pop()))
+        queues.append(q)
+    r.shuffle(queues)
+    out = []
+    while any(queues) and len(out) < cap:
+        for q in queues:
+            if q and len(out) < cap:
+                out.append(q.pop(0))
+    extra = 3 if tier == "quick" else cap
+    if tier != "quick" and n * n <= cap:
+        out = [(a, b) for a in range(n) for b in range(n)]
+    else:
+        for _ in range(extra):
+            if n:
+                out.append((r.randrange(n), r.randrange(n)))
+    seen, res = set(), []
+    for p in out:
+        if p not in seen and (p[0] + 1, p[1] + 1) in allowed:
+            seen.add(p)
+            res.append(p)
+    return res
+
+
+def run(rep, bld, tier):
+    if not bld.hooks:
+        rep.drift("genlatent: no hooked build, the tail x head histories are not replayed")
+        return
+    # (M) ---------------------------------------------------------------------------------------
+    good = ["GenLatent_MC.cfg"] + (["GenLatent_MC2h.cfg", "GenLatent_MC3.cfg"] if tier != "quick" else [])
+    why = ["GenLatent_MC_nxtwhy.cfg", "GenLatent_MC_nxtwhy3.cfg"] + (["GenLatent_MC_nxtwhy2h.cfg"] if tier != "quick" else [])
+    dev = [("GenLatent_MC_nxt.cfg", "Leak = {nxt}: the per-pass initialiser forgets the one-shot trackers"),
+           ("GenLatent_MC_mode.cfg", "Leak = {mode}: the per-pass initialiser forgets a sticky mode")]
+    gen_cfg = "GenLatent_Gen.cfg" if tier == "quick" else "GenLatent_Gen_full.cfg"
+    from vlib.common import pmap
+
+    def one(x):
+        mod, cfg = x
+        return tlc.run(mod, cfg, workers=2 if cfg == gen_cfg else 1, timeout=1500, mem="4g", tags=("GL",))
+    todo = [("GenLatent_MC", c) for c in good + why] + [("GenLatent_MC", c) for (c, _) in dev] + \
+           [("GenLatent_Gen", "GenLatent_Gen_nxt.cfg"), ("GenLatent_Gen", gen_cfg)]
+    with Phase("TLC GenLatent: %d configurations" % len(todo)):
+        rs = dict(zip([c for (_, c) in todo], pmap(one, todo, workers=4)))
+    for c in good + why + ["GenLatent_Gen_nxt.cfg", gen_cfg]:
+        r = tlc.must(rs[c], "GenLatent(%s)" % c)
+        if r.violation:
+            raise CheckError("GenLatent(%s): the specification violates its invariant: %s" % (c, r.violation[:600]))
+        rep.model("GenLatent(%s)" % c, r)
+    for (c, note) in dev:
+        r = rs[c]
+        if r.error and not r.violation:
+            raise CheckError("GenLatent(%s): %s" % (c, r.error[:400]))
+        rep.part("GenLatent(%s)" % c, expected_counterexample=bool(r.violation), note=note)
+        if not r.violation or "Indep" not in r.violation:
+            raise CheckError("the deviation %s is not refuted by TLC" % c)
+    shapes = [o for (tag, o) in rs[gen_cfg].printed if tag == "GL"]
+    if not shapes or not all(o["expect"] for o in shapes):
+        raise CheckError("GenLatent_Gen printed no shapes / a shape that is not expected independent")
+    general = [o for o in shapes if o["type"][0] != "one"]
+    allowed = {(o["files"][0]["j"], o["files"][1]["j"]) for o in shapes if o["type"][0] == "one"}
+    nkind = max([a for (a, _) in allowed] or [0])
+
+    # (G) ---------------------------------------------------------------------------------------
+    tests = aslrun.corpus()
+    with Phase("genlatent: hook traces of %d golden sources" % len(tests)):
+        srcs = analyse(bld, tests)
+    cpus = tracked_cpus()
+    fams = {n: Family(s, is_tracked(s, cpus), tier, nkind) for n, s in sorted(srcs.items()) if s.emit}
+    plan = [(f.src, f.klines) for f in fams.values() if len(f.klines) >= 2]
+    with Phase("genlatent: in-file probe of %d families (every kind behind every kind, two orders)" % len(plan)):
+        flagged = dict(zip([s.name for (s, _) in plan], probe_all(bld, plan)))
+    by_flags = collections.defaultdict(list)
+    for f in fams.values():
+        by_flags[f.src.flags].append(f)
+    r = rng("c18/genlatent/partner")
+    hists = []                      # (family name, shape record, [Win])
+    for name, f in fams.items():
+        others = [g for g in by_flags[f.src.flags] if g is not f]
+        partner = r.choice(others) if others else None
+        for o in general:
+            ws = []
+            for w in o["files"]:
+                ff = f if w["f"] == "a" else partner
+                ws.append(ff.win(w, tier) if ff is not None else None)
+            if all(x is not None for x in ws):
+                hists.append((name, o, ws))
+        for (a, b) in select_pairs(f, flagged.get(name), tier, allowed):
+            o = {"type": ["one", "same" if a == b else "diff", ""], "expect": True,
+                 "files": [{"w": "one", "f": "a", "j": a + 1, "k": a + 1, "tr": "end"},
+                           {"w": "one", "f": "a", "j": b + 1, "k": b + 1, "tr": "end"}]}
+            hists.append((name, o, [f.win(o["files"][0], tier), f.win(o["files"][1], tier)]))
+    with Phase("genlatent: solo runs of the distinct windows of %d histories" % len(hists)):
+        solo, odd = run_solos(bld, [w for (_, _, ws) in hists for w in ws])
+    for (w, res) in odd[:5]:
+        rep.drift("genlatent: window %s of %s ends the run alone (rc=%s signal=%s timeout=%s); left out"
+                  % ((w.j, w.k), w.src.name, res.rc, res.sig, res.timeout))
+    hists = [h for h in hists if all(w.key in solo for w in h[2])]
+    # chains: histories of the same asflags one after the other in ONE invocation
+    chains, cur, curflags = [], [], None
+    order = sorted(range(len(hists)), key=lambda i: (hists[i][2][0].src.flags, rng("c18/genlatent/order/%d" % i).random()))
+    for i in order:
+        ws = hists[i][2]
+        fl = ws[0].src.flags
+        if cur and (fl != curflags or len(cur) + len(ws) > CHAIN):
+            chains.append(cur)
+            cur = []
+        curflags = fl
+        cur += [(i, w) for w in ws]
+    if cur:
+        chains.append(cur)
+    with Phase("genlatent: %d histories in %d invocations" % (len(hists), len(chains))):
+        res = drvrun.run_many(bld, [_job([w for (_, w) in c], chain_names(len(c))) for c in chains])
+    nbad = 0
+    for c, m in zip(chains, res):
+        wins = [w for (_, w) in c]
+        for i in sorted({i for (i, _) in c}):
+            rep.evaluated()
+            rep.distinct("genlatent:" + "|".join("%s:%d-%d%s" % (w.src.name, w.j, w.k, w.tr) for w in hists[i][2]), True)
+        for (pos, what) in chain_diffs(wins, m, solo)[:4]:
+            nbad += 1
+            if nbad > 12:
+                continue
+            # localise: the shortest run of files in front of the member that reproduces the difference
+            culprit, L = wins[:pos + 1], 1
+            while L <= pos:
+                sub = wins[pos - L:pos + 1]
+                m2 = drvrun.run_job(bld, _job(sub, chain_names(len(sub))))
+                if any(p2 == len(sub) - 1 for (p2, _) in chain_diffs(sub, m2, solo)):
+                    culprit = sub
+                    break
+                L *= 2
+            hi, w = c[pos]
+            names = chain_names(len(culprit))
+            files = {"%s__%s" % (x.src.name, n): x.text for x, n in zip(culprit, names)}
+            files["argv"] = " ".join(_job(culprit, names)["argv"])
+            rep.violation("window of %s (lines %s..%s, first statement %r) assembles differently after %s in the same "
+                          "invocation than alone: %s"
+                          % (w.src.name, w.j or 1, w.k or "end", w.desc()["first"],
+                             " + ".join("%s[..%r]" % (x.src.name, x.desc()["last"]) for x in culprit[:-1]), what[:700]),
+                          case={"history": [x.desc() for x in culprit], "shape": hists[hi][1]}, files=files,
+                          key={"kind": "genlatent", "family": w.src.name, "pred": culprit[-2].src.name if len(culprit) > 1 else "",
+                               "head": w.src.kind.get(w.j, ""), "tail": culprit[-2].src.kind.get(culprit[-2].k, "") if len(culprit) > 1 else ""})
+    ones = sum(1 for h in hists if h[1]["type"][0] == "one")
+    rep.traces(len(hists))
+    rep.part("GenLatent(replay)", families=len(fams), tracked=sorted(n for n, f in fams.items() if f.tracked),
+             shapes_from_tlc=len(shapes), histories=len(hists), single_instruction_pairs=ones,
+             probe_interacting_pairs=sum(len(v or ()) for v in flagged.values()), invocations=len(chains),
+             windows_solo=len(solo), members_differing=nbad)
+    if hists:
+        name, o, ws = hists[-1]
+        rep.sample({"family": name, "shape": o, "windows": [w.desc() for w in ws]})
